@@ -3,6 +3,7 @@ module verif/harness
 go 1.21
 
 require (
+	connectrpc.com/connect v1.16.1
 	github.com/RoaringBitmap/roaring v1.9.1
 	github.com/streamingfast/bstream v0.0.2-0.20240916154503-c9c5c8bbeca0
 	github.com/streamingfast/dmetering v0.0.0-20240816165719-51768d3da951
@@ -24,7 +25,6 @@ require (
 	cloud.google.com/go/monitoring v1.18.0 // indirect
 	cloud.google.com/go/storage v1.38.0 // indirect
 	cloud.google.com/go/trace v1.10.5 // indirect
-	connectrpc.com/connect v1.16.1 // indirect
 	connectrpc.com/grpchealth v1.3.0 // indirect
 	connectrpc.com/grpcreflect v1.2.0 // indirect
 	connectrpc.com/otelconnect v0.7.0 // indirect
